@@ -1,12 +1,13 @@
 #!/bin/bash
 # tools/mutate.sh <patch.diff> <ID> [<ID> ...]   (env TIER=quick|thorough, SEEDS="0 1")
 # Applies a patch to a scratch worktree of /repo (outside /repo and /verif), runs the given checks
-# against it via VERIF_REPO, and removes the worktree. Evidence files are restored afterwards.
+# against it via VERIF_REPO, and removes the worktree. Evidence and replay files of these runs go to a scratch directory.
 PATCH="$(realpath "$1")"; shift
 WT="$(mktemp -d /tmp/mut-XXXXXX)"
 rmdir "$WT"
 git -C /repo worktree add -q --detach "$WT" HEAD || exit 2
-cleanup() { git -C /repo worktree remove --force "$WT" 2>/dev/null; rm -rf "$WT"; git -C /verif checkout -q -- evidence 2>/dev/null; }
+export VERIF_OUT="$(mktemp -d /tmp/mutout-XXXXXX)"   # evidence and replays of these runs go to scratch, not to /verif
+cleanup() { git -C /repo worktree remove --force "$WT" 2>/dev/null; rm -rf "$WT" "$VERIF_OUT"; }
 trap cleanup EXIT
 git -C "$WT" apply "$PATCH" || { echo "patch does not apply"; exit 2; }
 rc_all=0
